@@ -16,17 +16,20 @@ COMMON = [
 def common(P): return [(a, b, c.replace('{P}', P), d) for a, b, c, d in COMMON]
 
 PO = 'Proofs/SessionPassOut.v'
-m.write('C09', 'A session with four conforming clients always runs to completion (every schedule).', IMP.replace('Proofs.SessionExamples.', 'Proofs.SessionExamples Proofs.SessionPassOut Proofs.Wire Model.Conform Proofs.SessionConform.'), '''(* FULL STATEMENT, PROVED (C09_conforming_sessions_complete / _every_schedule, Proofs/SessionConform.v): for every non-empty
+m.write('C09', 'A session with four conforming clients always runs to completion (every schedule).', IMP.replace('Proofs.SessionExamples.', 'Proofs.SessionExamples Proofs.SessionPassOut Proofs.Wire Model.Conform Proofs.SessionConform Proofs.SessionAdmission Proofs.SessionArrivals.').replace('From Coq Require Import ZArith.', 'From Coq Require Import ZArith Permutation.'), '''(* FULL STATEMENT, PROVED (C09_conforming_sessions_complete / _every_schedule, Proofs/SessionConform.v): for every non-empty
    board list (any deals, dealers, vulnerabilities, ids), any two team names and EVERY conforming behaviour of the four clients
    (any legal auction of any length, any sequence of legal plays, every spelling of a call or card that the server parses - case,
    alerts, either card notation), every schedule of the network of threads ends with every process returned and one log record
-   per board.  The four clients of these theorems connect in the order N, E, S, W; other arrival orders and extra requests are
-   covered up to the start of board 1 by the admission theorems of C20 (Proofs/SessionAdmission.v), and beyond by the
-   schedule-independence theorem plus the per-session evaluation (the statement that keeps the suffix _partial). *)''',
+   per board.  First proved for clients connecting in the order N, E, S, W, then lifted to EVERY list of requests that fills the
+   table (C09_any_arrivals_every_schedule): main, the four seated connections and their clients return, turned-away clients
+   have stopped at their error line, and only the clients of requests that arrived after the table was full wait for ever -
+   which is what the property's premise (four conforming clients) leaves open. *)''',
  common('C09') + [
  (S, 'every_schedule_reaches_canonical', 'C09_every_schedule_completes_partial', 'if the canonical run of a session reaches a final state, every schedule of that session reaches exactly that state: no deadlock, no lost wake-up, however long a thread is delayed'),
  ('Proofs/SessionConform.v', 'conforming_session_completes', 'C09_conforming_sessions_complete', 'FULL, symbolic and unbounded: for every conforming session a schedule exists that drives the network to the state where every process has returned, with a log of one record per board'),
  ('Proofs/SessionConform.v', 'conforming_session_every_schedule', 'C09_conforming_sessions_every_schedule', 'hence EVERY schedule of every conforming session completes - no deadlock, no lost wake-up, however long a thread is delayed - in the same final state and within the same number of steps'),
+ ('Proofs/SessionArrivals.v', 'conforming_session_any_arrivals_every_schedule', 'C09_any_arrivals_every_schedule', 'FULL for every request list that fills the table, any number of connections: every schedule ends, within the same number of steps, in the one final state described by arrivals_outcome - main returned, log complete, the four seated connections and their clients returned'),
+ ('Proofs/SessionArrivals.v', 'conforming_session_any_order', 'C09_any_order_of_the_four', 'in particular for the four acceptable requests in any order every process finishes'),
  (PO, 'passout_session_completes', 'C09_passed_out_sessions_complete', 'the special case proved first: ANY non-empty list of boards (arbitrary deals, dealers, vulnerabilities, ids), four clients arriving N, E, S, W, everybody passing: a schedule exists that drives the network to the state where every process has returned, with a log of one record per board'),
  (PO, 'passout_session_every_schedule', 'C09_passed_out_sessions_every_schedule', 'hence EVERY schedule of such a session completes, in the same way and within the same number of steps'),
  (E, 'ex_played_completes', 'C09_example_played_session_completes', 'non-vacuity: a two-board session taken from a real run'),
@@ -43,18 +46,20 @@ m.write('C13', 'An aborted session still leaves a well-formed log of the complet
  (E, 'ex_aborted_log_shape', 'C13_example_aborted_log', None),
  (E, 'ex_aborted_model_is_the_real_run', 'C13_example_model_is_the_real_run', None),
 ])
-m.write('C08', "The table manager's log records exactly what was played (every schedule).", IMP.replace('Proofs.SessionExamples.', 'Proofs.SessionExamples Model.Conform Model.Json Proofs.RecordSpec Proofs.SessionPassOut Proofs.Wire Proofs.SessionConform Proofs.SessionConformLog Gen.JsonFns Proofs.JsonGen Gen.ScoreFns Proofs.ScoreGen.'), '''(* FULL STATEMENT, PROVED (C08_conforming_session_log_is_the_reference / _every_schedule, Proofs/SessionConformLog.v): for
+m.write('C08', "The table manager's log records exactly what was played (every schedule).", IMP.replace('Proofs.SessionExamples.', 'Proofs.SessionExamples Model.Conform Model.Json Proofs.RecordSpec Proofs.SessionPassOut Proofs.Wire Proofs.SessionConform Proofs.SessionConformLog Proofs.SessionAdmission Proofs.SessionArrivals Proofs.SessionArrivalsCor Gen.JsonFns Proofs.JsonGen Gen.ScoreFns Proofs.ScoreGen.'), '''(* FULL STATEMENT, PROVED (C08_conforming_session_log_is_the_reference / _every_schedule, Proofs/SessionConformLog.v): for
    every non-empty board list and every conforming behaviour of the four clients, under EVERY schedule the log is
    open ; one record per board, in order ; close, and each record is, as a JSON value, record_spec of the sequential reference
-   (the boards and what the players said, by the Laws / play reference / Law 77 formulas of Spec/).  Clients connect in the
-   order N, E, S, W in these theorems; for other arrival orders and extra requests the schedule-independence theorem plus the
-   per-session evaluation decide (suffix _partial). *)''',
+   (the boards and what the players said, by the Laws / play reference / Law 77 formulas of Spec/).  First proved for clients
+   connecting in the order N, E, S, W (the C08_conforming_session_log theorems), then lifted to EVERY list of requests that fills the table -
+   any order, with wrong versions, duplicates and mismatching partners turned away in between and late requests ignored -
+   by embedding the four-connection network into the n-connection one (C08_any_arrivals_log_is_the_reference). *)''',
  common('C08') + [
  (S, 'every_schedule_reaches_canonical', 'C08_log_independent_of_timing_partial', 'the final state - hence the log - of a session does not depend on thread timing'),
  (S, 'log_always_wellformed', 'C08_log_wellformed', None),
  ('Proofs/SessionConformLog.v', 'conforming_session_log', 'C08_conforming_session_log', 'FULL, symbolic and unbounded, at the level of the thread network: a run of every conforming session ends with every process returned and the log open ; records ; close, where the record of board j is the record the model builds from board j and the four scripts'),
  ('Proofs/SessionConformLog.v', 'conforming_session_log_is_spec', 'C08_conforming_session_log_is_the_reference', 'and, as JSON values, the records are exactly the sequential reference record_spec of Spec/SessionSpec.v'),
  ('Proofs/SessionConformLog.v', 'conforming_session_log_every_schedule', 'C08_conforming_session_log_every_schedule', 'EVERY maximal run of the session ends in that same state - the log does not depend on thread timing'),
+ ('Proofs/SessionArrivalsCor.v', 'any_arrivals_log_and_views_are_the_reference', 'C08_any_arrivals_log_is_the_reference', 'FULL for every request list that fills the table (any order, refusals in between, late requests): under every schedule the log is the reference record of every board - and every seated connection is sent the reference view of its seat'),
  ('Proofs/ScoreGen.v', 'g_calc_score_eq', 'C08_generated_score_is_hand_model', 'calc_score REGENERATED from score.py on every run (with the numbers re-read from the source) equals the scoring function the session model uses'),
  ('Proofs/JsonGen.v', 'g_record_json_eq', 'C08_generated_record_writer_is_hand_model', 'the JSON value of a record as built by JsonLogWriter.write REGENERATED from writer.py on every run is record_json of the model'),
  ('Proofs/RecordSpec.v', 'model_record_is_record_spec', 'C08_model_record_is_the_reference_record', 'FULL, for every board and every conforming script (sequential, no threads): the record the table manager model builds with the MODEL functions (take_bid / contract_of, play_by / tricks, calc_score) is, as a JSON value, exactly record_spec of the sequential reference built with the SPEC functions (Laws, play reference, Law 77 formulas)'),
@@ -63,15 +68,16 @@ m.write('C08', "The table manager's log records exactly what was played (every s
  (E, 'ex_passed_out_real_run_is_the_reference', 'C08_example_passed_out', None),
 ])
 VW = 'Proofs/View.v'
-m.write('C10', 'Each seat is told exactly what the protocol entitles it to, and nothing else (every schedule).', IMP.replace('Proofs.SessionExamples.', 'Proofs.SessionExamples Proofs.View Model.Conform Proofs.SessionPassOut Proofs.Wire Proofs.SessionConform Proofs.SessionConformLog.').replace('Local Open Scope nat_scope.', 'Local Open Scope string_scope.\nLocal Open Scope nat_scope.'), '''(* FULL STATEMENT, PROVED (C10_conforming_session_views / _every_schedule, Proofs/SessionConformLog.v): for every non-empty
+m.write('C10', 'Each seat is told exactly what the protocol entitles it to, and nothing else (every schedule).', IMP.replace('Proofs.SessionExamples.', 'Proofs.SessionExamples Proofs.View Model.Conform Proofs.SessionPassOut Proofs.Wire Proofs.SessionConform Proofs.SessionConformLog Proofs.SessionAdmission Proofs.SessionArrivals Proofs.SessionArrivalsCor.').replace('Local Open Scope nat_scope.', 'Local Open Scope string_scope.\nLocal Open Scope nat_scope.'), '''(* FULL STATEMENT, PROVED (C10_conforming_session_views / _every_schedule, Proofs/SessionConformLog.v): for every non-empty
    board list and every conforming behaviour of the four clients, under EVERY schedule the complete sequence of lines sent
    on each of the four connections equals view_spec of Spec/SessionSpec.v for that seat; the theorems about view_spec below
-   say that this reference is what the property states.  Clients connect in the order N, E, S, W in these theorems; for other
-   arrival orders the schedule-independence theorem plus the per-session evaluation decide (suffix _partial). *)''',
+   say that this reference is what the property states.  First proved for clients connecting in the order N, E, S, W, then
+   lifted to EVERY list of requests that fills the table (C10_any_arrivals_views_are_the_reference). *)''',
  common('C10') + [
  (S, 'every_schedule_reaches_canonical', 'C10_transcripts_independent_of_timing_partial', 'the complete transcript of every connection does not depend on thread timing'),
  ('Proofs/SessionConformLog.v', 'conforming_session_views', 'C10_conforming_session_views', 'FULL, symbolic and unbounded: a run of every conforming session ends with every process returned and, on each of the four connections, exactly the lines of view_spec for that seat'),
  ('Proofs/SessionConformLog.v', 'conforming_session_views_every_schedule', 'C10_conforming_session_views_every_schedule', 'and EVERY maximal run ends in that same state: what each seat is told does not depend on thread timing'),
+ ('Proofs/SessionArrivalsCor.v', 'any_arrivals_log_and_views_are_the_reference', 'C10_any_arrivals_views_are_the_reference', 'FULL for every request list that fills the table: under every schedule the connection seated at p is sent exactly view_spec for p'),
  (VW, 'view_board_decomp', 'C10_view_decomposition', 'the reference itself says what the property says: start line, header, own hand; then the auction part; then the play part'),
  (VW, 'board_starts_with_header', 'C10_board_starts_with_configured_header', None),
  (VW, 'view_spec_cards_lines', 'C10_only_own_cards_and_dummy', 'over a whole session the only cards lines a seat is sent are its own hand and Dummy (client texts that themselves look like a cards line excluded)'),
@@ -87,7 +93,7 @@ m.write('C10', 'Each seat is told exactly what the protocol entitles it to, and 
  (E, 'ex_admission_real_run_is_the_reference', 'C10_example_with_rejected_connections', None),
 ])
 A = 'Proofs/SessionAdmission.v'
-m.write('C20', 'Admission seats one conforming client per seat and turns the others away.', IMP.replace('Proofs.SessionExamples.', 'Proofs.SessionExamples Proofs.SessionPassOut Proofs.Wire Proofs.SessionAdmission.').replace('Local Open Scope nat_scope.', 'Local Open Scope string_scope.\nLocal Open Scope nat_scope.'), '',
+m.write('C20', 'Admission seats one conforming client per seat and turns the others away.', IMP.replace('Proofs.SessionExamples.', 'Proofs.SessionExamples Model.Conform Proofs.SessionConform Proofs.SessionPassOut Proofs.Wire Proofs.SessionAdmission Proofs.SessionArrivals.').replace('Local Open Scope nat_scope.', 'Local Open Scope string_scope.\nLocal Open Scope nat_scope.'), '',
  common('C20') + [
  (S, 'rejected_iff', 'C20_rejected_iff', 'a request is turned away exactly for a wrong protocol version, a seat already taken, or a team name different from the seated partner\'s'),
  (S, 'seated_keeps_seats', 'C20_monotone', 'whatever arrives later, a seated client keeps its seat and team (a rejected request leaves the table unchanged)'),
@@ -97,6 +103,8 @@ m.write('C20', 'Admission seats one conforming client per seat and turns the oth
  (A, 'admission_phase_any', 'C20_admission_network_any', 'FULL, symbolic and unbounded, at the level of the thread network: for EVERY list of requests (any seats, teams, versions, order, length; no hypothesis) there is a schedule after which main has run the accept loop over exactly the requests it looks at and every connection is in the state its outcome prescribes'),
  (A, 'admission_phase', 'C20_admission_network', 'when the requests fill the table: every request looked at and turned away got exactly its error line and was closed, its thread returned, its client failed; every seated one got exactly its seated line; the requests after the table was full were never looked at'),
  (A, 'seating_phase', 'C20_seating_network', 'and then all four are told both team names (the names of the table) and the first board is about to start - for any boards and scripts'),
+ ('Proofs/SessionArrivals.v', 'conforming_session_any_arrivals', 'C20_whole_session_any_arrivals', 'and the whole session that follows: with conforming seated clients a run exists to a final state where every turned-away connection holds exactly [its error line; CLOSED], every late one was never answered, and the seated four played every board'),
+ ('Proofs/SessionArrivals.v', 'conforming_session_any_arrivals_every_schedule', 'C20_whole_session_every_schedule', 'under EVERY schedule'),
  (S, 'every_schedule_reaches_canonical', 'C20_independent_of_timing_partial', 'with the confluence theorem above all maximal runs end in one final state, a continuation of the state reached by that schedule (transcripts are append-only)'),
  (A, 'premises_satisfiable', 'C20_example_premises', 'non-vacuity: eight requests - wrong version, duplicate seat, partner mismatch, one too late'),
  (A, 'admission_instance', 'C20_example_admission_instance', None),
